@@ -40,6 +40,114 @@ static void emit(const std::string& op, const std::string& res, const std::strin
     ++n_ops;
 }
 
+// C17 (stack family): the bytes an operation left in its footprint [from, to), as runs `value*count` starting at the
+// footprint's offset - observed on the real memory right after the operation, before the history writes its own content.
+// Builds without debug fill write nothing: " w=-".
+static std::string foot(const char* from, const char* to)
+{
+#if FOONATHAN_MEMORY_DEBUG_FILL
+    if (!from || !to || to <= from)
+        return " w=-";
+    std::string out = fmt(" w=%zu:", R->off(from));
+    unsigned    runs = 0;
+    for (auto p = reinterpret_cast<const unsigned char*>(from), e = reinterpret_cast<const unsigned char*>(to); p < e;)
+    {
+        auto q = p;
+        while (q < e && *q == *p)
+            ++q;
+        if (runs++)
+            out += ",";
+        if (runs > 8)
+        {
+            out += "...";
+            break;
+        }
+        out += fmt("%02x*%zu", unsigned(*p), std::size_t(q - p));
+        p = q;
+    }
+    return out;
+#else
+    (void)from;
+    (void)to;
+    return " w=-";
+#endif
+}
+// the property itself, checked on the real bytes (independent of the model): an allocation leaves
+// [fence | padding | new memory | fence] between the footprint's start and the new top, a release leaves freed memory
+static void foot_expect_alloc(const char* from, const char* to, const void* p, std::size_t size, const char* what)
+{
+#if FOONATHAN_MEMORY_DEBUG_FILL
+    auto        b = reinterpret_cast<const unsigned char*>(from);
+    auto        u = static_cast<const unsigned char*>(p);
+    std::size_t fence = detail::debug_fence_size;
+    if (!from || u < b + fence || reinterpret_cast<const unsigned char*>(to) != u + size + fence)
+    {
+        O->fail(fmt("C17 %s: the footprint [%zu, %zu) does not frame the returned memory %zu (+%zu) with two fences of %zu bytes", what,
+                    R->off(from), R->off(to), R->off(p), size, fence));
+        return;
+    }
+    auto chk = [&](const unsigned char* x, const unsigned char* e, unsigned v, const char* part)
+    {
+        for (; x < e; ++x)
+            if (*x != v)
+            {
+                O->fail(fmt("C17 %s: byte %zu of the %s is %02x, expected %02x (returned memory %zu, size %zu)", what, R->off(x), part,
+                            unsigned(*x), v, R->off(p), size));
+                return;
+            }
+    };
+    chk(b, b + fence, 0xFD, "front fence");
+    chk(b + fence, u, 0xED, "alignment padding");
+    chk(u, u + size, 0xCD, "returned memory");
+    chk(u + size, u + size + fence, 0xFD, "back fence");
+#else
+    (void)from, (void)to, (void)p, (void)size, (void)what;
+#endif
+}
+static void foot_expect_freed(const char* from, const char* to, const char* what)
+{
+#if FOONATHAN_MEMORY_DEBUG_FILL
+    for (auto x = reinterpret_cast<const unsigned char*>(from); from && x < reinterpret_cast<const unsigned char*>(to); ++x)
+        if (*x != 0xDD)
+        {
+            O->fail(fmt("C17 %s: released byte %zu is %02x, expected the freed pattern dd (released range [%zu, %zu))", what, R->off(x), unsigned(*x),
+                        R->off(from), R->off(to)));
+            return;
+        }
+#else
+    (void)from, (void)to, (void)what;
+#endif
+}
+// where a memory_stack was before an operation
+template <class Stack>
+struct Foot
+{
+    Stack&      s;
+    char*       top0;
+    std::size_t n0;
+    explicit Foot(Stack& st) : s(st), top0(st.stack_.top()), n0(st.arena_.size()) {}
+    // after an allocation: from the old top - or the start of the block the stack moved into - to the new top
+    std::string alloc(bool ok, const void* p = nullptr, std::size_t size = 0)
+    {
+        if (!ok)
+            return foot(nullptr, nullptr);
+        char* from = (s.arena_.size() != n0 || !top0) ? static_cast<char*>(s.arena_.current_block().memory) : top0;
+        if (p)
+            foot_expect_alloc(from, s.stack_.top(), p, size, "memory_stack allocation");
+        return foot(from, s.stack_.top());
+    }
+    // after unwind(m): from the marker's top to the old top (same block) or to the end of the marker's block
+    template <class M>
+    std::string unwind(const M& m)
+    {
+        if (m.index + 1 == n0)
+            foot_expect_freed(m.top, top0, "memory_stack::unwind");
+        else
+            foot_expect_freed(m.top, m.end, "memory_stack::unwind into an older block");
+        return m.index + 1 == n0 ? foot(m.top, top0) : foot(m.top, m.end);
+    }
+};
+
 static std::string blocks(const detail::memory_block_stack& s)
 {
     std::string out = "[";
@@ -212,7 +320,9 @@ static void run_stack(const char* subj, Rng& g, long nops, std::size_t block, Ma
             }
             void*       p = nullptr;
             auto        used_before = s.arena_.size();
+            Foot<Stack> ft(s);
             std::string res = guarded([&] { p = s.allocate(size, al); });
+            std::string w = ft.alloc(res.empty(), p, size);
             if (res.empty())
             {
                 long id = next_id++;
@@ -224,7 +334,7 @@ static void run_stack(const char* subj, Rng& g, long nops, std::size_t block, Ma
                 ++n_throw;
             if (s.arena_.size() != used_before)
                 ++n_grow;
-            emit(fmt("%s alloc %zu %zu", subj, size, al), res, stack_state(s));
+            emit(fmt("%s alloc %zu %zu", subj, size, al), res, stack_state(s) + w);
         }
         else if (k < 55)
         { // try_allocate
@@ -232,9 +342,10 @@ static void run_stack(const char* subj, Rng& g, long nops, std::size_t block, Ma
             using ctr = composable_allocator_traits<Stack>;
             unsigned    via = unsigned(g.below(4)); // member, composable node, composable array (count * elem = size)
             std::size_t cnt = via == 2 && size % 2 == 0 ? 2 : via == 3 && size % 3 == 0 ? 3 : 1;
+            Foot<Stack> ft(s);
             void*       p = via == 0 ? s.try_allocate(size, al)
                                      : via == 1 ? ctr::try_allocate_node(s, size, al) : ctr::try_allocate_array(s, cnt, size / cnt, al);
-            std::string res;
+            std::string res, w = ft.alloc(p != nullptr, p, size);
             if (p)
             {
                 O->on_alloc(next_id++, p, size, al, "stack.try_allocate");
@@ -246,15 +357,17 @@ static void run_stack(const char* subj, Rng& g, long nops, std::size_t block, Ma
                 res = "null";
                 ++n_null;
             }
-            emit(fmt("%s try_alloc %zu %zu", subj, size, al), res, stack_state(s));
+            emit(fmt("%s try_alloc %zu %zu", subj, size, al), res, stack_state(s) + w);
         }
         else if (k < 63)
         { // traits allocate_node / allocate_array (leak accounting)
             std::size_t size = 1 + g.below(48), count = 1 + g.below(5), al = std::size_t(1) << g.below(4);
             bool        arr = g.chance(50);
             void*       p = nullptr;
+            Foot<Stack> ft(s);
             std::string res = guarded(
                 [&] { p = arr ? traits::allocate_array(s, count, size, al) : traits::allocate_node(s, size, al); });
+            std::string w = ft.alloc(res.empty(), p, arr ? count * size : size);
             if (res.empty())
             {
                 O->on_alloc(next_id++, p, arr ? count * size : size, al, "stack.traits_allocate");
@@ -263,9 +376,9 @@ static void run_stack(const char* subj, Rng& g, long nops, std::size_t block, Ma
             }
             check_net(res.rfind("ok", 0) == 0 ? "after a successful traits allocation" : "after a FAILED traits allocation");
             if (arr)
-                emit(fmt("%s alloc_array %zu %zu %zu", subj, count, size, al), res, stack_state(s));
+                emit(fmt("%s alloc_array %zu %zu %zu", subj, count, size, al), res, stack_state(s) + w);
             else
-                emit(fmt("%s alloc_node %zu %zu", subj, size, al), res, stack_state(s));
+                emit(fmt("%s alloc_node %zu %zu", subj, size, al), res, stack_state(s) + w);
         }
         else if (k < 68)
         { // traits deallocate (only counts)
@@ -362,7 +475,9 @@ static void run_stack(const char* subj, Rng& g, long nops, std::size_t block, Ma
                 for (std::size_t q = 0; q < reqs.size(); ++q)
                 {
                     void*       p = nullptr;
+                    Foot<Stack> ft(s);
                     std::string res = guarded([&] { p = s.allocate(reqs[q].first, reqs[q].second); });
+                    std::string w = ft.alloc(res.empty(), p, reqs[q].first);
                     if (res.empty())
                     {
                         O->on_alloc(next_id++, p, reqs[q].first, reqs[q].second, "stack.allocate(replay)");
@@ -373,11 +488,12 @@ static void run_stack(const char* subj, Rng& g, long nops, std::size_t block, Ma
                     else if (R->n_fail == fails0 && res != first[q])
                         O->fail(fmt("replay after unwind: request %zu (%zu,%zu) gave `%s`, first time `%s`", q, reqs[q].first,
                                     reqs[q].second, res.c_str(), first[q].c_str()));
-                    emit(fmt("%s alloc %zu %zu", subj, reqs[q].first, reqs[q].second), res, stack_state(s));
+                    emit(fmt("%s alloc %zu %zu", subj, reqs[q].first, reqs[q].second), res, stack_state(s) + w);
                 }
                 if (pass == 1 && R->n_fail == fails0 && R->n_alloc != up0)
                     O->fail("replay after unwind asked the upstream for memory although the blocks were cached");
                 O->verify_all("before unwind");
+                Foot<Stack> ftu(s);
                 switch (mode)
                 {
                 case 0: s.unwind(m); break;
@@ -425,7 +541,7 @@ static void run_stack(const char* subj, Rng& g, long nops, std::size_t block, Ma
                 ++n_unwind;
                 O->live.resize(std::min(O->live.size(), live0));
                 O->verify_all("after unwind");
-                emit(fmt("%s unwind %zu %zu %zu", subj, m.index, R->off(m.top), R->off(m.end)), "done", stack_state(s));
+                emit(fmt("%s unwind %zu %zu %zu", subj, m.index, R->off(m.top), R->off(m.end)), "done", stack_state(s) + ftu.unwind(m));
                 if (s.top() != m)
                     O->fail("top() after unwind(m) differs from m");
             }
@@ -448,7 +564,9 @@ static void run_stack(const char* subj, Rng& g, long nops, std::size_t block, Ma
             std::size_t j = valid[valid.size() - 1 - std::min<std::size_t>(g.below(3), valid.size() - 1)];
             auto        before = s.arena_.size();
             O->verify_all("before unwind");
+            Foot<Stack> ftu(s);
             s.unwind(markers[j]);
+            std::string w = ftu.unwind(markers[j]);
             ++n_unwind;
             n_unwind_blocks += long(before - s.arena_.size());
             O->live.resize(std::min(O->live.size(), mrec[j].live_count)); // released by the unwind (content was verified before)
@@ -456,7 +574,7 @@ static void run_stack(const char* subj, Rng& g, long nops, std::size_t block, Ma
             for (std::size_t q = j + 1; q < mrec.size(); ++q)
                 mrec[q].valid = false;
             emit(fmt("%s unwind %zu %zu %zu", subj, markers[j].index, R->off(markers[j].top), R->off(markers[j].end)), "done",
-                 stack_state(s));
+                 stack_state(s) + w);
         }
         else if (k < 94)
         {
@@ -478,18 +596,20 @@ static void run_stack(const char* subj, Rng& g, long nops, std::size_t block, Ma
                 {
                 {
                     void*       p = nullptr;
+                    Foot<Stack> ft(s);
                     std::string r = guarded([&] { p = traits::allocate_node(s, mn + 1, 1); });
                     if (r.empty())
                         O->fail(fmt("C18 memory_stack: a request above the reported max_node_size succeeded (%p)", p));
-                    emit(fmt("%s alloc_node %zu 1", subj, mn + 1), r.empty() ? fmt("ok %zu", R->off(p)) : r, stack_state(s));
+                    emit(fmt("%s alloc_node %zu 1", subj, mn + 1), r.empty() ? fmt("ok %zu", R->off(p)) : r, stack_state(s) + ft.alloc(r.empty()));
                 }
                 {
                     std::size_t ma = traits::max_array_size(s), cnt = ma / 4 + 1;
                     void*       p = nullptr;
+                    Foot<Stack> ft(s);
                     std::string r = guarded([&] { p = traits::allocate_array(s, cnt, 4, 1); });
                     if (r.empty())
                         O->fail(fmt("C18 memory_stack: a request above the reported max_array_size succeeded (%p)", p));
-                    emit(fmt("%s alloc_array %zu 4 1", subj, cnt), r.empty() ? fmt("ok %zu", R->off(p)) : r, stack_state(s));
+                    emit(fmt("%s alloc_array %zu 4 1", subj, cnt), r.empty() ? fmt("ok %zu", R->off(p)) : r, stack_state(s) + ft.alloc(r.empty()));
                 }
                 check_net("after requests above the reported maxima");
                 }
@@ -615,6 +735,7 @@ static void run_iter(const char* subj, Rng& g, long nops, std::size_t block, Mak
             std::size_t size = pick_size(g, block / N), al = pick_align(g);
             void*       p = nullptr;
             std::string res;
+            char*       top0 = it->stacks_[it->cur_].top();
             if (tr)
             {
                 p = it->try_allocate(size, al);
@@ -622,6 +743,9 @@ static void run_iter(const char* subj, Rng& g, long nops, std::size_t block, Mak
             }
             else
                 res = guarded([&] { p = it->allocate(size, al); });
+            std::string w = res.empty() ? foot(top0, it->stacks_[it->cur_].top()) : foot(nullptr, nullptr);
+            if (res.empty())
+                foot_expect_alloc(top0, it->stacks_[it->cur_].top(), p, size, "iteration_allocator allocation");
             if (res.empty())
             {
                 long id = next_id++;
@@ -634,13 +758,15 @@ static void run_iter(const char* subj, Rng& g, long nops, std::size_t block, Mak
                 ++n_null;
             else
                 ++n_throw;
-            emit(fmt("%s %s %zu %zu", subj, tr ? "try_alloc" : "alloc", size, al), res, iter_state(*it));
+            emit(fmt("%s %s %zu %zu", subj, tr ? "try_alloc" : "alloc", size, al), res, iter_state(*it) + w);
         }
         else if (k >= 75 && k < 80 && it->capacity_left() > 2 * detail::debug_fence_size)
         { // fill the current region to its very last byte
             std::size_t size = it->capacity_left() - 2 * detail::debug_fence_size;
             void*       p = nullptr;
+            char*       top0 = it->stacks_[it->cur_].top();
             std::string res = guarded([&] { p = it->allocate(size, 1); });
+            std::string w = res.empty() ? foot(top0, it->stacks_[it->cur_].top()) : foot(nullptr, nullptr);
             if (res.empty())
             {
                 long id = next_id++;
@@ -651,7 +777,7 @@ static void run_iter(const char* subj, Rng& g, long nops, std::size_t block, Mak
             }
             else
                 ++n_throw;
-            emit(fmt("%s alloc %zu 1", subj, size), res, iter_state(*it));
+            emit(fmt("%s alloc %zu 1", subj, size), res, iter_state(*it) + w);
         }
         else if (k >= 55 && k < 60)
         { // C08: composable try_deallocate_node/array = "is this inside my block" for memory of every iteration
@@ -697,14 +823,17 @@ static void run_iter(const char* subj, Rng& g, long nops, std::size_t block, Mak
         else if (k < 55)
         {
             O->verify_all("before next_iteration");
+            char* ntop0 = it->stacks_[(it->cur_ + 1) % N].top();
             it->next_iteration();
+            std::string w = foot(it->stacks_[it->cur_].top(), ntop0);
+            foot_expect_freed(it->stacks_[it->cur_].top(), ntop0, "iteration_allocator::next_iteration");
             own_cur = (own_cur + 1) % N;
             // memory of the slot we switched to is now recycled
             for (long id : ids[own_cur])
                 O->forget(id);
             ids[own_cur].clear();
             O->verify_all("after next_iteration");
-            emit(fmt("%s next", subj), "done", iter_state(*it));
+            emit(fmt("%s next", subj), "done", iter_state(*it) + w);
         }
         else if (k < 85)
         {
